@@ -1,11 +1,12 @@
 #!/bin/bash
 # usage: seed_import.sh <PID> <mN> <check-id>...   confirm the seed in its scratch worktree, run the given quick checks on /repo with the patch applied, store under /verif/seeded/<PID>-<mN>/
 pid=$1; m=$2; shift 2
-src=/tmp/wt/$pid/seeded_out/$m
+wt=${WT:-/tmp/wt/$pid}
+src=$wt/seeded_out/$m
 dst=/verif/seeded/$pid-$m
 mkdir -p $dst
 cp $src/patch.diff $src/demo.rs $dst/
-conf=$(/verif/tools/confirm_seed.sh /tmp/wt/$pid $src 2>&1 | tail -1)
+conf=$(/verif/tools/confirm_seed.sh $wt $src 2>&1 | tail -1)
 echo "confirm: $conf"
 res=$(/verif/tools/mutest.sh $dst/patch.diff "$@" 2>&1)
 echo "$res" | cut -c1-420
